@@ -54,7 +54,7 @@ Definition gds_to_double_dy (real : N) : bool * N * Z :=
    value = m * 2^e > 0.  value * 16^(14-E) is exact in a double (a power-of-two scaling of a
    normal number that stays normal), the cast truncates: floor (m * 2^(e + 4*(14-E))). *)
 Definition gds_encode_with (E : Z) (neg : bool) (m e : Z) : N :=
-  let mantissa := Z.to_N (Z.shiftl m (e + 4 * (14 - E))) mod 2 ^ 64 in
+  let mantissa := (Z.to_N (Z.shiftl m (e + 4 * (14 - E))) mod 2 ^ 64)%N in
   let u8_1 := (((if neg then 128 else 0) + Z.to_N ((64 + E) mod 256)) mod 256)%N in
   N.lor (N.shiftl u8_1 56) (N.land mantissa gds_mant_mask).
 
@@ -73,7 +73,7 @@ Definition ideal_exponent (m e : Z) : Z := (e + Z.log2 m + 1 + 3) / 4.
    Left shifts are truncated to the width of the type. *)
 Local Open Scope N_scope.
 Definition swap16 (b : N) : N :=
-  N.lor (N.shiftl b 8 mod 2 ^ 16) (N.shiftr b 8).
+  (N.lor (N.shiftl b 8) (N.shiftr b 8)) mod 2 ^ 16.   (* computed in int, stored in uint16_t *)
 
 Definition swap32 (b : N) : N :=
   N.lor (N.lor (N.lor (N.shiftl b 24 mod 2 ^ 32)
@@ -97,3 +97,19 @@ Fixpoint bytes_le (n : nat) (b : N) : list N :=
   match n with O => [] | S k => b mod 256 :: bytes_le k (b / 256) end.
 Fixpoint of_bytes_le (l : list N) : N :=
   match l with [] => 0 | x :: t => x + 256 * of_bytes_le t end.
+
+(* ================================================================== glue for the correspondence run *)
+Local Open Scope Z_scope.
+(* a finite non-zero IEEE binary64 pattern as (negative?, m, e), value = +- m * 2^e *)
+Definition dbl_decompose (bits : N) : option (bool * Z * Z) :=
+  let frac := Z.of_N (N.land bits (N.ones 52)) in
+  let ex := Z.of_N (N.land (N.shiftr bits 52) (N.ones 11)) in
+  let neg := N.testbit bits 63 in
+  if ex =? 2047 then None                       (* infinity / NaN *)
+  else if ex =? 0 then (if frac =? 0 then None else Some (neg, frac, -1074))
+  else Some (neg, 2 ^ 52 + frac, ex - 1075).
+
+(* the exponents covered by the theorems: the ideal one, or one more in the top binade below 16^E* *)
+Definition gds_exponent_allowed (m e E : Z) : bool :=
+  let Ei := ideal_exponent m e in
+  (E =? Ei) || ((E =? Ei + 1) && (2 ^ (4 * Ei - e) <=? 2 * m)).
